@@ -24,7 +24,7 @@ ASSUMPTIONS = [
 ]
 MONITORS = ("status answers vs os.walk listing; FaultyFS counters prove both lookup strategies ran; wrappers on ObjectDBIndex.update/clear "
             "log what was indexed; index content vs upload log + present directory objects after every step")
-REQUIRED_COUNTERS = ["queries_of_64_or_more_ids", "status_queries_from_inside_an_abandoned_index_walk", "compare_status_calls_relying_on_the_default", "index_handles_closed_and_reused", "histories_with_an_empty_directory", "stores_opened_through_non_canonical_path", "stores_of_another_algorithm", "many_indexed_directories_cases", "histories_with_second_store_index", "second_store_queries", "expanded_transfer_steps", "dir_vanished_mid_transfer_steps", "expanded_status_queries_with_index", "handle_wrote_before_foreign_writes", "source_lost_files", "unprotected_valid_objects", "two_handle_histories", "status_queries", "strategy/per-object-exists", "strategy/traverse", "compare_status_calls", "expanded_queries",
+REQUIRED_COUNTERS = ["histories_ending_with_the_handles_taking_turns", "queries_of_64_or_more_ids", "status_queries_from_inside_an_abandoned_index_walk", "compare_status_calls_relying_on_the_default", "index_handles_closed_and_reused", "histories_with_an_empty_directory", "stores_opened_through_non_canonical_path", "stores_of_another_algorithm", "many_indexed_directories_cases", "histories_with_second_store_index", "second_store_queries", "expanded_transfer_steps", "dir_vanished_mid_transfer_steps", "expanded_status_queries_with_index", "handle_wrote_before_foreign_writes", "source_lost_files", "unprotected_valid_objects", "two_handle_histories", "status_queries", "strategy/per-object-exists", "strategy/traverse", "compare_status_calls", "expanded_queries",
                      "histories", "history_steps", "index_checks", "index_updates_seen", "index_clears_seen", "external_deletions",
                      "failed_transfer_steps", "indexed_dir_exists_checked", "store/local", "store/remote", "store/base"]
 
@@ -294,11 +294,18 @@ def run_shard(ctx):
                               case=case, detail={"log": log[-10:], "held": len(held)})
 
         with MethodPatch(ObjectDBIndex, "update", upd), MethodPatch(ObjectDBIndex, "clear", clr):
-            for _step in range(rng.randrange(4, 13)):
+            steps_ = [None] * rng.randrange(4, 13)
+            if len(handles) == 2 and rng.random() < 0.5:
+                # ... ending with the two handles taking turns: one delivers (and indexes), a directory is lost, the other one is asked
+                steps_ += [("transfer", 1), ("delete-dir", 1), ("status", 0), ("transfer", 1), ("delete-dir", 1), ("status", 0)]
+                res.count("histories_ending_with_the_handles_taking_turns")
+            for _step in steps_:
                 res.count("history_steps")
                 index = rng.choice(handles)
                 op = rng.choice(["transfer", "transfer", "failing-transfer", "delete-file", "delete-dir", "status", "status", "compare", "source-loses-file",
                                  "expanded-transfer", "dir-vanishes-mid-transfer", "close-handle"])
+                if _step is not None:
+                    op, index = _step[0], handles[_step[1]]
                 if op == "close-handle":
                     # a handle is closed and then simply used again (it reconnects on demand)
                     rng.choice(handles).close()
